@@ -175,10 +175,10 @@ def renderField (f : FormatSpec) (a : Arg) : Outcome (List Nat) :=
   | .bool b => .ok (renderText f (if b then [116, 114, 117, 101] else [102, 97, 108, 115, 101]))
   | .str bs => .ok (renderText f bs)
   | .nullStr => .ok []
-  | .wide src us =>
+  | .wide src m us =>
       -- wide text renders as its UTF-8 transcoding (C02's reference transcoder under the default
-      -- validation: malformed wide text is `unicode_error`), cut and padded like any text
-      (Unicode.reference src .utf8 .checkValidity true us).bind fun bs => .ok (renderText f bs)
+      -- validation `m`: under check_validity malformed wide text is `unicode_error`), cut and padded like any text
+      (Unicode.reference src .utf8 m true us).bind fun bs => .ok (renderText f bs)
   | .float r => .ok (renderFloat f r)
   | .char8 v =>
       -- a UTF-8 code unit: as a character it is copied as it is
